@@ -200,7 +200,8 @@ def build_tasks(tier):
     tasks = []
     shapes_q = [(6, 6, 6)] if tier == 'quick' else [(6, 6, 6), (5, 7, 9),
                                                     (12, 4, 6)]
-    ghosts = (1, 3) if tier == 'quick' else (1, 2, 3)
+    ghosts = (0, 1, 3, (1, 0, 2)) if tier == 'quick' else (
+        0, 1, 2, 3, (1, 0, 2), (2, 3, 1))
     req = [(['alpha', 'betaup3', 'gxx'], [2, 0], 0, -1, {}),
            (['gammadown3'], [2], 0, 0, {})]
     # F1: layout x cuts x uneven x ghost x shape
